@@ -19,7 +19,7 @@ def tla_set(xs):
     return "{" + ", ".join(tla_str(x) for x in xs) + "}"
 
 
-def variant(run, binary, cfg, ctx, pats, paths, max_routes, tag):
+def variant(run, binary, cfg, ctx, pats, paths, max_routes, tag, multi=False):
     # 1. measure the individual match relation on the real code
     inp = os.path.join(run.work, "c01_in_%s.json" % tag)
     outp = os.path.join(run.work, "c01_measure_%s.txt" % tag)
@@ -41,6 +41,7 @@ def variant(run, binary, cfg, ctx, pats, paths, max_routes, tag):
             "D_MaxRoutes == %d" % max_routes,
             'D_RwTargets == {"/abc"}',
             'D_OvTargets == {"POST"}',
+            'D_MultiKinds == %s' % ('{"GET+POST"}' if multi else '{}'),
             "===="]
     r = run.tlc_must_pass("MC_Router", "MC_Router.cfg", workers=12, heap="8g", timeout=3000,
                           defines={"Router_data.tla": "\n".join(data) + "\n"}, name="Router_" + tag)
@@ -69,7 +70,11 @@ def check(run):
     if run.tier == "quick":
         variants = [(DEFAULT, "default", PATS, PATHS, 2, "def"),
                     (ALLON, "default", PATS, PATHS, 2, "allon"),
-                    (DEFAULT, "custom", PATS[:6] + PATS[7:8], PATHS, 2, "custom")]
+                    (DEFAULT, "custom", PATS[:6] + PATS[7:8], PATHS, 2, "custom"),
+                    # three registrations incl. multi-method ones over a tiny pool: the smallest tables in which an endpoint, a later
+                    # middleware and another method's endpoint meet, or a multi-method registration is followed by a duplicate
+                    (DEFAULT, "default", ["/", "/a"], ["/", "/a", "/abc"], 3, "three_small", True),
+                    (DEFAULT, "custom", ["/", "/a"], ["/", "/abc"], 3, "three_small_custom", True)]
     else:
         variants = []
         i = 0
@@ -81,9 +86,11 @@ def check(run):
                         variants.append(({"cs": cs, "strict": st, "unesc": un}, ctx, PATS, PATHS, 2, "v%d" % i))
         sub = ["/", "/a", "/abc", "/:p", "/abc/:p"]
         variants.append((DEFAULT, "default", sub, ["/", "/a", "/abc", "/abc/x", "/zz"], 3, "three"))
+        variants.append((DEFAULT, "default", ["/", "/a", "/:p"], ["/", "/a", "/abc"], 3, "three_multi", True))
     tot = collections.Counter()
-    for cfg, ctx, pats, paths, mr, tag in variants:
-        n, nm, viol, samples, summary = variant(run, binary, cfg, ctx, pats, paths, mr, tag)
+    for v in variants:
+        cfg, ctx, pats, paths, mr, tag = v[:6]
+        n, nm, viol, samples, summary = variant(run, binary, cfg, ctx, pats, paths, mr, tag, multi=len(v) > 6 and v[6])
         for v in viol:
             run.violation(v)
         run.evaluations += n
